@@ -292,7 +292,8 @@ PROPS["C20"] = dict(
                "MutableHeaders.__init__[mapping]",
                "asgi.CachedStream.push", "asgi.CachedStream.push_eof", "asgi.CachedStream.__anext__",
                "asgi.NextResponse.from_app.send", "asgi.NextResponse.render_stream", "asgi.StreamingResponse.__call__",
-               "wsgi.middleware.wsgi", "wsgi.decorator.view", "asgi.decorator.view"],
+               "wsgi.middleware.wsgi", "wsgi.decorator.view", "asgi.decorator.view",
+               "asgi.NextResponse.from_app", "asgi.middleware.asgi"],
     refute={"quick": [2], "thorough": [1, 2, 3]},
     native="c20",
     level="other",
@@ -308,7 +309,12 @@ PROPS["C20"] = dict(
                "(from_app.<locals>.send) takes, for EVERY message, the status and the header list from a start message and "
                "appends the body of a body message to the cached stream, closing it exactly when more_body is absent/false; "
                "CachedStream.push / push_eof / __anext__ keep 'content == everything pushed', and NextResponse.render_stream "
-               "(an iterator-protocol loop with invariant) re-emits exactly the cached bytes; the WSGI wrapper that "
+               "(an iterator-protocol loop with invariant) re-emits exactly the cached bytes; the ASGI NextResponse.from_app AS A WHOLE, "
+               "for an abstract inner application that sends a start message and any number n >= 1 of body messages, returns a "
+               "response with that status, that header mapping and a closed, rewound cached stream holding exactly the "
+               "concatenation of all n bodies - the induction over the message sequence is carried out on the real closure "
+               "(base / step for an arbitrary non-final message under the induction hypothesis / final message are obligations), "
+               "and the ASGI wrapper that middleware(handler)(app) returns forwards exactly that; the WSGI wrapper that "
                "middleware(handler)(app) returns, with an identity handler, runs the inner application exactly once (from_app "
                "through its contract), calls the response it built exactly once and forwards its status and header mapping; "
                "the view wrappers of both `decorator` helpers run the inner view once with the same request and return its "
@@ -322,8 +328,8 @@ PROPS["C20"] = dict(
                "header names that occur several times (e.g. two Set-Cookie lines) arrive folded into one comma-joined line.",
     technique="deductive verification: relay contract over an abstract (re-)iterable with ghost output bytes, SMT; bounded differential run of identity stacks",
     explanation="proved: ensure_next relay, WSGI from_app capture (status, headers, body, run-once, started-before-return), "
-                "Headers.__init__ (pair list and mapping copy), streaming re-emission legality; ASGI per-message capture (send closure), CachedStream and its re-emission; bounded: the "
-                "composition over whole message sequences, decorator/middleware stacks.",
+                "Headers.__init__ (pair list and mapping copy), streaming re-emission legality; ASGI per-message capture (send closure), CachedStream and its re-emission, ASGI from_app over whole message sequences "
+                "(induction on the real closure) and the ASGI middleware wrapper; bounded: decorator/middleware stacks of depth 0..3.",
 )
 
 PROPS["C16"] = dict(
